@@ -69,6 +69,24 @@ def _salted(x, pid):
     return _BUILTIN_HASH(x)
 
 
+def _ukey_fresh():
+    import itertools
+    return {"N": 0, "_ns": itertools.count()}
+
+
+def _ukey_get(cls):
+    """The key counter of UniqueKey, whichever way the tree under test keeps it (N or an itertools.count)."""
+    return {"N": getattr(cls, "N", 0), "_ns": getattr(cls, "_ns", None)}
+
+
+def _ukey_set(cls, st):
+    if hasattr(cls, "N"):
+        cls.N = st["N"]
+    if hasattr(cls, "_ns"):
+        import itertools
+        cls._ns = st["_ns"] if st["_ns"] is not None else itertools.count()
+
+
 class GlobalsVirt:
     """Per-pid snapshots of coba's process-global state."""
 
@@ -87,7 +105,7 @@ class GlobalsVirt:
         import coba.random as cr
         import coba.pipes.multiprocessing as cpm
         ctx = {a: CobaContext.__dict__[a] for a in self.CTX_ATTRS if a in CobaContext.__dict__}
-        return {"ctx": ctx, "rand": cr._random, "ukey": cpm.UniqueKey.N, "proc": _mpp._current_process}
+        return {"ctx": ctx, "rand": cr._random, "ukey": _ukey_get(cpm.UniqueKey), "proc": _mpp._current_process}
 
     def _apply(self, st):
         from coba.context import CobaContext
@@ -99,7 +117,7 @@ class GlobalsVirt:
             elif a in CobaContext.__dict__:
                 delattr(CobaContext, a)
         cr._random = st["rand"]
-        cpm.UniqueKey.N = st["ukey"]
+        _ukey_set(cpm.UniqueKey, st["ukey"])
         _mpp._current_process = st["proc"]
 
     def _pristine(self, pid):
@@ -111,7 +129,7 @@ class GlobalsVirt:
                "_search_paths": []}
         # a fresh interpreter time-seeds the module generator: deterministic per (run, pid) here
         rand = CobaRandom(int(splitmix64(self.seed, pid, 0xA11CE) % (2 ** 30)))
-        return {"ctx": ctx, "rand": rand, "ukey": 0, "proc": prims._CurProc(pid, f"SimProcess-{pid - 1000}")}
+        return {"ctx": ctx, "rand": rand, "ukey": _ukey_fresh(), "proc": prims._CurProc(pid, f"SimProcess-{pid - 1000}")}
 
     def switch(self, old_pid, new_pid):
         if new_pid == self.loaded:
@@ -131,7 +149,7 @@ class GlobalsVirt:
         self.outside_proc = _mpp._current_process
         _mpp._current_process = prims._CurProc(1000, "MainProcess")
         # every run simulates a fresh main interpreter as well
-        cpm.UniqueKey.N = 0
+        _ukey_set(cpm.UniqueKey, _ukey_fresh())
         cr._random = cr.CobaRandom(int(splitmix64(self.seed, 1000, 0xA11CE) % (2 ** 30)))
         self.loaded = 1000
 
